@@ -91,7 +91,11 @@ def run(case):
         traj = cases.trajectory(sup[:n].reshape(T, n // T, 3), ['Li'] * (n // T), M * scale[:, None])
         positions = positions[:n]
         pin = positions.copy()
+        before = np.array(traj.positions)
+        gcall(an.analyze_trajectory, traj, supercell=tuple(sc), radius=min(radius, 0.3))  # an earlier analysis of the same trajectory
         shapes = gcall(an.analyze_trajectory, traj, supercell=tuple(sc), radius=radius)
+        if not np.array_equal(np.array(traj.positions), before):
+            raise Violation('input-positions-unchanged', 'analyze_trajectory(supercell=...) modified the trajectory it was given')
         labels.append('supercell')
     elif case.get('via_trajectory'):
         T = case['frames']
@@ -100,7 +104,11 @@ def run(case):
             raise Skip()
         positions = positions[:n]
         traj = cases.trajectory(positions.reshape(T, n // T, 3), ['Li'] * (n // T), M)
+        before = np.array(traj.positions)
+        gcall(an.analyze_trajectory, traj, radius=min(radius, 0.3))
         shapes = gcall(an.analyze_trajectory, traj, radius=radius)
+        if not np.array_equal(np.array(traj.positions), before):
+            raise Violation('input-positions-unchanged', 'analyze_trajectory modified the trajectory it was given')
         labels.append('trajectory')
     else:
         pin = positions.copy()
